@@ -1,6 +1,7 @@
 package main
 
 import (
+	"bytes"
 	"fmt"
 	"os"
 
@@ -62,6 +63,50 @@ type coCfg struct {
 	IDY      bool `json:"sgpr_workgroup_id_y,omitempty"`
 	IDZ      bool `json:"sgpr_workgroup_id_z,omitempty"`
 	EntryOff int  `json:"entry_offset,omitempty"`
+	// Loader: the code object is not constructed by the harness but obtained
+	// from an ELF image (header-based V2/V3 or descriptor-based V5) through
+	// the real loader insts.LoadKernelCodeObjectFromBytes; the fields above
+	// are what the image's header / descriptor enables.
+	Loader bool `json:"via_loader,omitempty"`
+}
+
+// loaderCompatible restricts a configuration to what the loader path can
+// carry: the loader strips the V2/V3 header (entry offset 0); its documented
+// V5 normalisation always provides kernarg pointer (kernarg size > 0),
+// work-group id x and y and nothing else but work-group id z "as the compiler
+// set it".
+func (c coCfg) loaderCompatible() coCfg {
+	c.Loader = true
+	c.EntryOff = 0
+	if c.V5 {
+		c.PrivBuf, c.DispPtr, c.DispID, c.FlatScr, c.CntX, c.CntY, c.CntZ = false, false, false, false, false, false, false
+		c.Kernarg, c.IDX, c.IDY = true, true, true
+	}
+	return c
+}
+
+// image is the ELF file of a loader-path case.
+func (c coCfg) image() *imgSpec {
+	b2u := func(b bool) uint32 {
+		if b {
+			return 1
+		}
+		return 0
+	}
+	im := &imgSpec{Name: "idkernel", V5: c.V5, KernargSize: 16, Code: []byte{0x00, 0x00, 0x81, 0xBF},
+		TextAddr: 0x1000, RodataAddr: 0x600}
+	im.Rsrc2 = b2u(c.IDX)<<7 | b2u(c.IDY)<<8 | b2u(c.IDZ)<<9 | uint32(c.VgprID&3)<<11
+	if c.V5 {
+		im.Rsrc1 = 0 | 3<<6 // 4 VGPRs, 32 SGPRs (granulated)
+		im.Rsrc2 |= 2 << 1  // user_sgpr_count: kernarg pointer
+		im.CodeProps = 1 << 3
+	} else {
+		im.Rsrc1 = 0 | 3<<6
+		im.SgprCount, im.VgprCount = l2SRegs, l2VRegs
+		im.CodeProps = b2u(c.PrivBuf) | b2u(c.DispPtr)<<1 | b2u(c.Kernarg)<<3 | b2u(c.DispID)<<4 | b2u(c.FlatScr)<<5 |
+			b2u(c.CntX)<<7 | b2u(c.CntY)<<8 | b2u(c.CntZ)<<9
+	}
+	return im
 }
 
 type regCase struct {
@@ -73,6 +118,10 @@ type regCase struct {
 }
 
 func (c coCfg) codeObject() *insts.KernelCodeObject {
+	if c.Loader {
+		im := c.image()
+		return insts.LoadKernelCodeObjectFromBytes(im.build(), im.Name)
+	}
 	m := &insts.KernelCodeObjectMeta{
 		KernargSegmentByteSize:         16,
 		KernelCodeEntryByteOffset:      uint64(c.EntryOff),
@@ -275,6 +324,26 @@ func l2Cases(c *vlib.Check) []any {
 	for i := 0; i < n; i++ {
 		out = append(out, genRegCase(base.ForkN("r", i), i, c.N(4000, 12000)))
 	}
+	// loader path: the same kind of cases with the code object taken from an
+	// ELF image through the real loader
+	for _, r := range canonicalRegCases() {
+		lc := *r
+		lc.Name += "-via-loader"
+		lc.CO = lc.CO.loaderCompatible()
+		out = append(out, &lc)
+	}
+	lb := c.Rand("l2-loader")
+	for i := 0; i < n/3; i++ {
+		r := lb.ForkN("r", i)
+		lc := genRegCase(r, i, c.N(4000, 12000))
+		lc.Name = fmt.Sprintf("ld%d", i)
+		lc.CO.V5 = i%2 == 0
+		lc.CO = lc.CO.loaderCompatible()
+		if i%4 == 0 { // a kernel that needs all three dimensions
+			lc.CO.IDX, lc.CO.IDY, lc.CO.IDZ, lc.CO.VgprID = true, true, true, 2
+		}
+		out = append(out, lc)
+	}
 	return out
 }
 
@@ -430,7 +499,11 @@ func (j *l2Judge) viol(mode, key, what string, extra map[string]any) {
 	if j.c.CO.V5 {
 		ver = "v5"
 	}
-	j.rec.Violation("C08|L2|"+mode+"|"+key+"|"+ver,
+	k := "C08|L2|" + mode + "|" + key + "|" + ver
+	if j.c.CO.Loader {
+		k = "C08|loader-path|" + ver + "|" + mode + "|" + key
+	}
+	j.rec.Violation(k,
 		fmt.Sprintf("%s: %s [grid %v, work-group %v, %s, enable_vgpr_workitem_id=%d]", mode, what, j.c.Grid, j.c.WG, ver, j.c.CO.VgprID), j.wit(extra))
 }
 
@@ -622,6 +695,48 @@ func (j *l2Judge) compare(wgs []*kernels.WorkGroup, es, ts map[*kernels.Wavefron
 	}
 }
 
+// loaderHandOff: the code object the loader returns must have the version of
+// the image and must tell the compute units to initialise at least the id
+// registers the image enables (the loader may add ids, it must not drop one).
+func loaderHandOff(rec vlib.Recorder, c *regCase, co *insts.KernelCodeObject, wit func(map[string]any) map[string]any) bool {
+	ver, want := "v3", insts.CodeObjectV3
+	if c.CO.V5 {
+		ver, want = "v5", insts.CodeObjectV5
+	}
+	pre := "C08|loader-path|" + ver + "|loader|"
+	if co == nil || co.KernelCodeObjectMeta == nil {
+		rec.Violation(pre+"no-code-object", "the loader returned no code object for a well-formed single-kernel image", wit(nil))
+		return false
+	}
+	if co.Version != want {
+		rec.Violation(pre+"wrong-code-object-version", fmt.Sprintf("the %s image was loaded as code object version %v", ver, co.Version), wit(nil))
+		return false
+	}
+	if !bytes.Equal(co.Data, []byte{0x00, 0x00, 0x81, 0xBF}) {
+		rec.Violation(pre+"wrong-instruction-bytes", fmt.Sprintf("the loaded kernel has %d instruction bytes % x, the image's kernel is s_endpgm", len(co.Data), co.Data[:imin(len(co.Data), 8)]), wit(nil))
+		return false
+	}
+	ok := true
+	for d, p := range []struct {
+		img, got bool
+	}{{c.CO.IDX, co.EnableSgprWorkGroupIDX()}, {c.CO.IDY, co.EnableSgprWorkGroupIDY()}, {c.CO.IDZ, co.EnableSgprWorkGroupIDZ()}} {
+		if p.img && !p.got {
+			n := []string{"x", "y", "z"}[d]
+			rec.Violation(pre+"enable-sgpr-workgroup-id-"+n+"-dropped", fmt.Sprintf("the image enables the work-group id %s SGPR, the loaded code object does not (compute_pgm_rsrc2 = %#x)", n, co.ComputePgmRsrc2), wit(nil))
+			ok = false
+		}
+	}
+	if int(co.EnableVgprWorkItemID()) < c.CO.VgprID {
+		rec.Violation(pre+"enable-vgpr-workitem-id-lowered", fmt.Sprintf("the image has enable_vgpr_workitem_id = %d, the loaded code object %d", c.CO.VgprID, co.EnableVgprWorkItemID()), wit(nil))
+		ok = false
+	}
+	if ok {
+		rec.Count("l2_loader_handoffs_checked", 1)
+	}
+	// the register-level oracle still runs: it shows the consequence
+	return true
+}
+
 func runL2(rec vlib.Recorder, c *regCase) {
 	rec.Eval()
 	rec.Count("l2_cases", 1)
@@ -633,6 +748,9 @@ func runL2(rec vlib.Recorder, c *regCase) {
 		return m
 	}
 	co := c.CO.codeObject()
+	if c.CO.Loader && !loaderHandOff(rec, c, co, wit) {
+		return
+	}
 	pkt := mkPacket(c.Grid, c.WG)
 	pkt.KernelObject = l2CodeAddr
 	pkt.KernargAddress = 0x2000
@@ -677,6 +795,17 @@ func runL2(rec vlib.Recorder, c *regCase) {
 		rec.Count("l2_cases_v5", 1)
 	} else {
 		rec.Count("l2_cases_v3", 1)
+	}
+	if c.CO.Loader {
+		n := numWGs(c.Grid, c.WG)
+		rec.Count("l2_loader_cases_"+ver, 1)
+		if n[1] > 1 && c.CO.IDY {
+			rec.Count("l2_loader_"+ver+"_cases_several_wg_layers_in_y", 1)
+		}
+		if n[2] > 1 && c.CO.IDZ {
+			rec.Count("l2_loader_"+ver+"_cases_several_wg_layers_in_z", 1)
+		}
+		rec.Distinct("l2_loader_enables", fmt.Sprintf("%s/x%v y%v z%v/vgprid%d", ver, c.CO.IDX, c.CO.IDY, c.CO.IDZ, c.CO.VgprID))
 	}
 	if nontrivial(c.Grid, c.WG) {
 		rec.Nontrivial(fmt.Sprintf("L2/%v/%v/%+v", c.Grid, c.WG, c.CO))
